@@ -57,7 +57,13 @@ type RC struct {
 	Rec     *RunRecord
 	KeepLog bool
 	caseH   uint64
+	phase   string
+	// set by the scenario to override the default (>=2 scheduling decisions)
+	nontrivialSet bool
 }
+
+// SetNontrivial overrides the default non-triviality rule for this run.
+func (rc *RC) SetNontrivial(v bool) { rc.Rec.Nontrivial = v; rc.nontrivialSet = true }
 
 // Draw takes a generator decision in [0,n).
 func (rc *RC) Draw(n int) int { return rc.Tape.G.Draw(n) }
@@ -120,47 +126,20 @@ func (rc *RC) Knob(name string, v int) {
 	rc.Rec.Knobs[name] = v
 }
 
-// Sim runs main under the scheduler. Deadlock, livelock (step budget) and
-// task panics are recorded as failures with class prefix+"/deadlock" etc.
-// unless the scenario passes handle=false and interprets the result itself.
-func (rc *RC) Sim(classPrefix string, preempt bool, knobs map[string]int, maxSteps int, main func()) *simrt.Result {
-	res := simrt.Run(simrt.Config{Tape: rc.Tape, KeepLog: rc.KeepLog, Preempt: preempt, Knobs: knobs, MaxSteps: maxSteps}, main)
-	r := rc.Rec
-	r.Sims++
-	r.Steps += res.Steps
-	r.Decisions += res.Decisions
-	r.Switches += res.Switches
-	r.Tasks += res.Tasks
-	r.Preempts += res.Preempts
-	r.TraceHash = r.TraceHash*1099511628211 ^ res.TraceHash
-	if res.Decisions >= 2 {
-		r.Nontrivial = true
-	}
-	for i, n := range res.Probes {
-		if n > 0 {
-			r.Probes[simrt.ProbeNames()[i]] += int(n)
-		}
-	}
-	if rc.KeepLog {
-		r.Log = append(r.Log, res.Log...)
-	}
-	if res.Deadlock || res.Livelock {
-		r.Dirty = true
-		r.Stuck = res.Stuck
-		r.Stacks = res.StuckStacks
-	}
-	if classPrefix != "" {
-		switch {
-		case len(res.Panics) > 0:
-			p := res.Panics[0]
-			rc.Fail(classPrefix+"/panic", "task %s panicked: %s\n%s", p.Task, p.Value, trimStack(p.Stack))
-		case res.Deadlock:
-			rc.Fail(classPrefix+"/deadlock", "no task can run but %d are unfinished: %s", len(res.Stuck), stuckString(res.Stuck))
-		case res.Livelock:
-			rc.Fail(classPrefix+"/livelock", "step budget exhausted after %d scheduling decisions: %s", res.Steps, stuckString(res.Stuck))
-		}
-	}
-	return res
+// Phase names what the run is doing; a deadlock, livelock or a panic in a
+// task other than main is recorded as a failure of class phase+"/deadlock"
+// etc. The whole scenario runs as the main task of one simulation, so every
+// b6 call - fixtures, operations, observations - is under the scheduler and
+// every map iteration order and goroutine interleaving comes from the tape.
+func (rc *RC) Phase(prefix string) { rc.phase = prefix }
+
+// Sim runs main with the given phase (kept for readability at call sites
+// that start goroutine pipelines).
+func (rc *RC) Sim(classPrefix string, main func()) {
+	old := rc.phase
+	rc.phase = classPrefix
+	main()
+	rc.phase = old
 }
 
 func stuckString(st []simrt.Stuck) string {
@@ -225,6 +204,10 @@ type Scenario struct {
 	NontrivialByCase bool
 	// NeedsRace: the verdict includes the race detector.
 	NeedsRace bool
+	// Preempt enables R13 preemption points for this scenario.
+	Preempt bool
+	// MaxSteps overrides the per-run scheduling step budget.
+	MaxSteps int
 	// Level for the evidence file: "exploration" (default) or "fault_enumeration".
 	Level string
 }
@@ -254,15 +237,47 @@ func ExecRun(t *testing.T, sc *Scenario, tape *simrt.Tape, seed, run uint64, kee
 			}
 		}()
 		synctest.Test(t, func(t *testing.T) {
-			defer func() {
-				if r := recover(); r != nil {
-					// a panic in scenario code outside tasks: harness bug or
-					// a crash of b6 code called directly by the scenario
-					rc.Rec.Fail = nil
-					rc.Fail("HARNESS/panic", "panic outside simulated tasks and outside rc.Guard: %v\n%s", r, stackString())
+			rc.phase = sc.Prop
+			res := simrt.Run(simrt.Config{Tape: tape, KeepLog: keepLog, Preempt: sc.Preempt, MaxSteps: sc.MaxSteps, Knobs: map[string]int{}}, func() {
+				sc.Run(rc)
+			})
+			rec.Sims = 1
+			rec.Steps = res.Steps
+			rec.Decisions = res.Decisions
+			rec.Switches = res.Switches
+			rec.Tasks = res.Tasks
+			rec.Preempts = res.Preempts
+			rec.TraceHash = res.TraceHash
+			if !rc.nontrivialSet {
+				rec.Nontrivial = res.Decisions >= 2
+			}
+			for i, n := range res.Probes {
+				if n > 0 {
+					rec.Probes[simrt.ProbeNames()[i]] += int(n)
 				}
-			}()
-			sc.Run(rc)
+			}
+			rec.Log = res.Log
+			if res.Deadlock || res.Livelock {
+				rec.Dirty = true
+				rec.Stuck = res.Stuck
+				rec.Stacks = res.StuckStacks
+			}
+			for _, p := range res.Panics {
+				if strings.HasSuffix(p.Task, ":main") || p.Task == "main" {
+					// scenario code outside rc.Guard: a harness bug
+					rec.Fail = nil
+					rc.Fail("HARNESS/panic", "panic in the scenario's main task outside rc.Guard: %s\n%s", p.Value, p.Stack)
+				} else {
+					rc.Fail(rc.phase+"/panic", "task %s panicked (this would kill the process): %s\n%s", p.Task, p.Value, trimStack(p.Stack))
+				}
+				break
+			}
+			switch {
+			case res.Deadlock:
+				rc.Fail(rc.phase+"/deadlock", "no task can run but %d are unfinished: %s", len(res.Stuck), stuckString(res.Stuck))
+			case res.Livelock:
+				rc.Fail(rc.phase+"/livelock", "step budget exhausted after %d scheduling decisions: %s", res.Steps, stuckString(res.Stuck))
+			}
 		})
 	}()
 	rec.TapeG = append([]uint32(nil), tape.G.Rec...)
